@@ -1,5 +1,11 @@
 package lazy
 
+import (
+	"unsafe"
+
+	"github.com/coregx/coregex/verifhook"
+)
+
 // DFACache uses byte-based capacity (like Rust's cache_capacity).
 
 // DFACache holds mutable state for DFA search operations.
@@ -93,7 +99,13 @@ func (c *DFACache) Insert(key StateKey, state *State) (StateID, error) {
 	// Check capacity (byte-based, like Rust's cache_capacity)
 	if c.MemoryUsage() >= c.capacityBytes {
 		c.misses++
+		if verifhook.On {
+			verifhook.Emit("dfa.full", int(uintptr(unsafe.Pointer(c))), c.MemoryUsage(), c.capacityBytes, c.clearCount)
+		}
 		return InvalidState, ErrCacheFull
+	}
+	if verifhook.On {
+		verifhook.Emit("dfa.insert", int(uintptr(unsafe.Pointer(c))), c.MemoryUsage(), c.capacityBytes, c.clearCount, len(c.states))
 	}
 
 	// Assign premultiplied state ID (byte offset into flatTrans).
@@ -292,6 +304,9 @@ func (c *DFACache) ClearKeepMemory() {
 	c.startTable = newStartTableFromByteMap(&c.startTable.byteMap)
 	c.nextID = StateID(c.stride)
 	c.clearCount++
+	if verifhook.On {
+		verifhook.Emit("dfa.clear", int(uintptr(unsafe.Pointer(c))), c.MemoryUsage(), c.capacityBytes, c.clearCount)
+	}
 }
 
 // ClearCount returns how many times the cache has been cleared.
